@@ -170,6 +170,14 @@ def wObs (stack : Bool) (c : WCfg) : String :=
      else " ".intercalate (c.2.map (fun t => showList toString t.rets)) ++ " | "
        ++ showList (fun (p : Int × Int) => toString p.1 ++ ">" ++ toString p.2) c.1.log)
 
+def splitToks (sep : String) : List String → List (List String)
+  | [] => [[]]
+  | t :: r =>
+    if t == sep then [] :: splitToks sep r
+    else match splitToks sep r with
+      | g :: gs => (t :: g) :: gs
+      | [] => [[t]]
+
 def parseWOp : List String → Option Wait.WOp
   | ["add", d] => d.toInt?.map .add
   | ["set", v] => v.toInt?.map .set
@@ -456,6 +464,28 @@ def stepLine (st : St) (toks : List String) : St × String :=
       let (ok, ans) := answer (wObs k) (" ".intercalate obs) (dedupBy (wKey k) outs []) complete
       (.wm k ok, ans)
     | _, _, _ => (st, "bad-op")
+  | "wu" :: rest =>
+    -- wu T0 <op0> / T1 <op1> / … | <obs>: goroutine T0's call runs to quiescence, then the calls of T1, T2, … — queued on
+    -- the value lock behind T0's subscriber callback on the real object — arrive together; every interleaving is explored
+    let opToks := rest.takeWhile (· != "|")
+    let obs := (rest.dropWhile (· != "|")).drop 1
+    let groups := (splitToks "/" opToks).filter (fun g => !g.isEmpty)
+    let parsed := groups.mapM fun g =>
+      match g with
+      | i :: op => match i.toNat?, parseWOp op with
+        | some i, some op => some (i, op)
+        | _, _ => none
+      | [] => none
+    match st, parsed with
+    | .wm k cs, some ((i0, op0) :: others) =>
+      let starts0 := cs.filterMap (fun c => wArrive c i0 op0)
+      let (mid, complete0) := quiescentFrom WaitV.sys (wKey k) starts0
+      let starts := (dedupBy (wKey k) mid []).filterMap fun c =>
+        others.foldlM (fun c (p : Nat × Wait.WOp) => wArrive c p.1 p.2) c
+      let (outs, complete) := quiescentFrom WaitV.sys (wKey k) starts
+      let (ok, ans) := answer (wObs k) (" ".intercalate obs) (dedupBy (wKey k) outs []) (complete0 && complete)
+      (.wm k ok, ans)
+    | _, _ => (st, "bad-op")
   | "wq" :: t :: m :: u :: thr :: rest =>
     let obs := (rest.dropWhile (· != "|")).drop 1
     let second : Option (Option (Nat × Int)) :=
